@@ -10,3 +10,7 @@ from .C15 import CHECKS as _c15
 
 CHECKS = [c for c in _c15 if c.name == "jac"] + [plumbing_check("C07")]
 TRUSTED = ["torch.vmap(f, chunk_size=c)(xs): one batched evaluation when c = len(xs); math.ceil(int/int) is exact ceiling division"]
+
+# mtl_backward: the caller's chunk size / retain flag reach the shared Jac and every task's Grad (pipeline-structure contract)
+from .C02 import mtl_structure as _mtl_structure  # noqa: E402
+CHECKS += [_mtl_structure(2)]
